@@ -575,7 +575,9 @@ class ChainedDiscretizer(BaseDiscretizer):
                     # adding unknown to the order
                     for unknown_value in unknown_values:
                         order.append(unknown_value)
-                        order.append(self.str_nan)
+                        # adding str_nan only once (appending it again resets its group)
+                        if not order.contains(self.str_nan):
+                            order.append(self.str_nan)
                         # grouping unknown value with str_nan
                         order.group(unknown_value, self.str_nan)
 
